@@ -393,6 +393,21 @@ def gen_C16(rng, tier):
             t = p.bind('deref %s' % q); p.add('obs %s' % t)
         # the layer object is used again: further cycles after the parameters were reset in place, updated by the
         # optimizer, replaced through the pointers, or left spent (then the next pass is detached from them)
+        if rng.random() < 0.3:
+            # the same layer applied to two inputs (and one tracked input fed to the layer twice) with BOTH forward passes
+            # before the first BackPropagate: the parameters' gradients are the SUM over the two walks
+            for q in (pw, pb):
+                t = p.bind('deref %s' % q); p.add('reset %s 1' % t)
+            xa = p.tensor([batch, fi], [rng.uniform(-2, 2) for _ in range(batch * fi)], tracked=True)
+            xb = p.tensor([batch, fi], [rng.uniform(-2, 2) for _ in range(batch * fi)], tracked=rng.random() < 0.5)
+            ya = p.bind('fwd %s %s' % (f, xa)); yb = p.bind('fwd %s %s' % (f, xb)); yc = p.bind('fwd %s %s' % (f, xa))
+            for yy in (ya, yb, yc):
+                g = p.tensor([batch, fo], weights(rng, batch * fo))
+                p.add('bp %s' % p.bind('mul %s %s' % (yy, g)))
+                for q in (pw, pb):
+                    t = p.bind('deref %s' % q); p.add('obs %s' % t)
+                p.add('obs %s' % xa); p.add('obs %s' % xb)
+            p.tag('forwards-before-backwards')
         cycles = rng.choice([0, 0, 1, 1, 2])
         for c in range(cycles):
             between = rng.choice(['reset-in-place', 'reset-in-place', 'update+reset', 'replace', 'nothing', 'reset-one'])
@@ -443,7 +458,9 @@ def gen_C17(rng, tier):
                 b = p.bind('mul %s %s' % (a, w))
                 c = p.bind('add %s %s' % (b, a))
             else:
-                # no libm on the path: compared bit-exactly with the model
+                # no libm on the path, every value the result of single correctly rounded operations (products, one two-term
+                # sum): compared BIT-exactly with the model, without the slack granted to re-associated sums
+                p.tag('bit-exact')
                 k = p.tensor(shape, [rng.uniform(-2, 2) for _ in range(n)])
                 a = p.bind('mul %s %s' % (w, k))
                 b = p.bind('scale %s %s' % (w, f2b(rng.choice([0.5, 1.0, -0.25]))))
@@ -521,6 +538,14 @@ def gen_C19(rng, tier):
                     else: p.add('acc %s %s %s' % (metric, a, p.tensor([3], [1.0, 2.0, 3.0])))
                     p.add('result %s' % metric)
                     p.tag('rejected-' + kind)
+        if i % 10 == 8:
+            # near misses: predictions a few units in the last place away from the target, at several magnitudes — NOT matches
+            for k in range(total):
+                if rng.random() < 0.5:
+                    base = rng.choice([1.0, 3.0, 0.1, 0.3, 1e-9, 1e9, 0.5, 2.0])
+                    yt[k] = base
+                    yp[k] = ulps(base, rng.choice([-4, -2, -1, 1, 2, 4, 64, 4096]))
+            p.tag('near-miss-ulps')
         if i % 10 == 9:
             # special values: NaN never equals anything (not even itself), infinities equal themselves, -0 equals +0
             for k in range(total):
